@@ -20,6 +20,9 @@ from ..common import Verdict, workdir, run_harness, log, die_tool
 
 PROP = "C19"
 LAYER = {1: "global", 2: "custom", 3: "project"}
+# header names: one that says what it is, two whose names give nothing away (a secret header is secret because the
+# configuration put it there, not because of its name)
+HDRNAME = {1: "x-secret-1", 2: "x-gateway-signature", 3: "x-upstream-passphrase"}
 OUTCOMES = ["ok", "http_echo", "transport", "invalid_sse", "tool_fail", "http_500_text"]
 
 
@@ -56,7 +59,7 @@ def concretise(m, idx, outcome, dump):
     if m["openai"]:
         ep += "?via=openai.com"
         secrets["openai_env"] = canary(f"OAI{idx}")
-        env["OPENAI_API_KEY"] = secrets["openai_env"]
+        env["OPENAI_API_KEY"] = secrets["openai_env"] + ("\n" if idx % 3 == 2 else "")
     layers = {}
     for i in (1, 2, 3):
         prov = {"endpoint": ep}
@@ -68,12 +71,12 @@ def concretise(m, idx, outcome, dump):
             prov["api_key"] = {"env": f"CANARY_ENV_{i}"}
             if kind == "env_set":
                 secrets[f"envref_{LAYER[i]}"] = canary(f"E{i}x{idx}")
-                env[f"CANARY_ENV_{i}"] = secrets[f"envref_{LAYER[i]}"]
+                env[f"CANARY_ENV_{i}"] = secrets[f"envref_{LAYER[i]}"] + ("\n" if idx % 5 == 3 else "")
             elif kind == "env_empty":
                 env[f"CANARY_ENV_{i}"] = ""
         if m["hdr"][i - 1]:
             secrets[f"hdr_{LAYER[i]}"] = canary(f"H{i}x{idx}")
-            prov["headers"] = {f"x-secret-{i}": secrets[f"hdr_{LAYER[i]}"]}
+            prov["headers"] = {HDRNAME[i]: secrets[f"hdr_{LAYER[i]}"]}
         cfg = {"provider": {"prov": prov}}
         if m["select"] == "route" and i == 1:
             cfg["roles"] = {"primary": "prov/model-x"}
@@ -101,7 +104,9 @@ def concretise(m, idx, outcome, dump):
         env["RIP_OPENRESPONSES_ENDPOINT"] = ep + ("&" if "?" in ep else "?") + "nomatch=1"
     if m["envkey"] == "set":
         secrets["rip_env"] = canary(f"R{idx}")
-        env["RIP_OPENRESPONSES_API_KEY"] = secrets["rip_env"]
+        # every third configuration: the value as `$(cat keyfile)` / a CRLF .env file would give it
+        pad = [("", ""), (" ", "\n"), ("", "\r\n"), ("\t", " ")][idx % 4 if idx % 3 == 1 else 0]
+        env["RIP_OPENRESPONSES_API_KEY"] = pad[0] + secrets["rip_env"] + pad[1]
     elif m["envkey"] == "empty":
         env["RIP_OPENRESPONSES_API_KEY"] = "  "
     if dump:
@@ -120,8 +125,8 @@ def concretise(m, idx, outcome, dump):
     else:
         want_key, want_source = None, None
     case["_want"] = {"key": want_key, "source": want_source, "has": bool(m["has"]),
-                     "headers": sorted(f"x-secret-{i}" for i in m["headers"]),
-                     "header_values": {f"x-secret-{i}": secrets[f"hdr_{LAYER[i]}"] for i in m["headers"]}}
+                     "headers": sorted(HDRNAME[i] for i in m["headers"]),
+                     "header_values": {HDRNAME[i]: secrets[f"hdr_{LAYER[i]}"] for i in m["headers"]}}
     case["_m"] = m
     case["_outcome"] = outcome
     case["_dump"] = dump
@@ -180,7 +185,7 @@ def run(tier, seed):
             got = {"has": bool(d.get("has_api_key")), "source": d.get("api_key_source"), "headers": sorted(d.get("headers") or [])}
             dr = m["doctor"]
             want = {"has": bool(dr["has_api_key"]), "source": (None if dr["api_key_source"] == "none" else w["source"]),
-                    "headers": sorted(f"x-secret-{i}" for i in dr["headers"])}
+                    "headers": sorted(HDRNAME[i] for i in dr["headers"])}
             if got != want:
                 v.violation(f"case {c['id']} (select {m['select']}, keys {m['key']}, env {m['envkey']}, openai {m['openai']}): doctor reports {got}, the configuration gives {want}",
                             {"engine": "secrets", "case": pub, "sink": "doctor_report"})
